@@ -2,7 +2,7 @@
 //! abandonment: those are C06): mutual exclusion and lifecycle order. See `ecverif::microrun`.
 fn main() {
     ecverif::microrun::main_for(
-        ecverif::microrun::Profile { key: "c02", drops: false, timeouts: false, tx_fail: true, rx_noise: true },
+        ecverif::microrun::Profile { key: "c02", drops: false, timeouts: false, tx_fail: true, rx_noise: true, only: &[] },
         150,
         4000,
     );
